@@ -13,12 +13,13 @@ func init() {
 			Pkgs:          []string{"board", "eval", "attacks"},
 			SliderSummary: true,
 			Bounds: []string{
-				"ARBITRARY valid placement (62 symbolic cells, no material bound, promoted material included), halfmove clock 0..127, case split on (side to move, white king square, black king square): quick 3 pairs x 2 sides, thorough 24 pairs x 2 sides (of 3612 possible pairs)",
-				"symmetry is decided compositionally: (1) Eval == tapered sum of its term functions (glue, on the real Eval), (2) every term group is colour-symmetric (five groups, each a solver query over the repository's term functions), (3) the final combination (sigmoid, tapering, mover's view) is a symmetric function of ARBITRARY 16-bit term totals, (4) the special endings are symmetric on the real Eval. The whole-Eval miter Eval(b) == Eval(mirror b) in one query did not close within 10 minutes and is not claimed",
+				"ARBITRARY valid placement (62 symbolic cells, no material bound, promoted material included), halfmove clock 0..127, case split on (side to move, white king square, black king square): quick 1 pair (e1/e8) x 2 sides, thorough 24 pairs x 2 sides (of 3612 possible pairs)",
+				"PARTIAL: symmetry is decided per term group, not for Eval as a whole: (1) the placement-based terms (material, tempo, bishop pair, passers, doubled/isolated pawns, piece-square, mobility, outposts, connected rooks) and three of the four king-attack groups (attacking pieces, bishop/knight safe checks, shelter) are colour-symmetric when computed by the repository's own term functions in Eval's order on a position and on its mirror image; (2) the final combination (sigmoid, tapering by phase and halfmove clock, mover's view, endgame score) is a symmetric function of ARBITRARY 16-bit term totals. NOT closed within 10-15 minutes per query and therefore not claimed: the queen/rook safe-check group, the special endings (insufficient material, KNB v K), the identity Eval == tapered sum of these terms, and the whole-Eval miter Eval(b) == Eval(mirror b)",
 			},
+			Assumptions: []string{"run-time panics inside Eval (table index ranges driven by popcounts) are not part of this check: paths are not restricted by a no-panic assumption either"},
 			Stubs: []string{"attacks.RookMoves/BishopMoves -> ray-walk specification per square, licensed by re-proving the C12 lemma on this run", "evaluation coefficients, sigmoid and phase tables from the real init/var values (native dump)"},
 		}
-		n := 3
+		n := 1
 		if tier == "thorough" {
 			n = 24
 		}
@@ -47,11 +48,9 @@ func init() {
 					}
 					return m
 				}
-				s.Instances = append(s.Instances,
-					run.Instance{Pkg: "eval", Func: "VpH_C17_glue", Params: with("", 0), Opt: run.Options{TimeoutMs: 300000}},
-					run.Instance{Pkg: "eval", Func: "VpH_C17_special", Params: with("", 0), Opt: run.Options{TimeoutMs: 300000}})
-				for part := int64(0); part <= 4; part++ {
-					s.Instances = append(s.Instances, run.Instance{Pkg: "eval", Func: "VpH_C17_terms", Params: with("part", part), Opt: run.Options{TimeoutMs: 300000}})
+				s.Instances = append(s.Instances, run.Instance{Pkg: "eval", Func: "VpH_C17_indep", Params: with("", 0), Opt: run.Options{TimeoutMs: 300000, PanicMode: "ignore"}})
+				for _, part := range []int64{0, 1, 3, 4} {
+					s.Instances = append(s.Instances, run.Instance{Pkg: "eval", Func: "VpH_C17_terms", Params: with("part", part), Opt: run.Options{TimeoutMs: 300000, PanicMode: "ignore"}})
 				}
 			}
 		}
